@@ -86,6 +86,13 @@ CHECKS = {
             'same expression (TypeError <=> incompatible_types, result conforms to the inferred type) and is_subtype stability',
             'Every cell/tree/value in the bounded space is analysed and executed; a missed TypeError or a nonconforming inferred '
             'type is a violation. Operand values are chosen so that outcomes depend on operand types only.', '2/C19'),
+    'C18': ('bounded-exhaustive program families on the real tifa_analysis: a snippet for every Python 3.12 statement/expression '
+            'form x 7 containers and every ordered pair of snippets; every registered builtin function and every '
+            'str/list/dict/set/file/tuple method (read from the registry at run time) x 17/13 argument shapes incl. keywords; all '
+            'sequences of <=3 statements over a flow grammar; each analysed twice on one report (default-argument path), once with '
+            'explicit code and once on a fresh report; oracle: returns, completes (subset), same issues, no extra feedback, lines in range',
+            'Every program of the enumerated families is analysed repeatedly; raising, internal failure inside the subset, '
+            'non-idempotence, non-determinism and out-of-range lines are violations.', '2/C18'),
 }
 
 PENDING = ['C02', 'C03', 'C04', 'C05', 'C06', 'C07', 'C08', 'C09', 'C10', 'C11', 'C12', 'C13', 'C14', 'C15',
